@@ -1,11 +1,17 @@
 import Lox.Drv.Common
 import Lox.Lex.Model
+import Lox.Lex.Bisim
 /-! Driver ops of the Lex vertical.
 
 `lex.run <fuel> | mode0 ; mode1 ; … | r1 w1 r2 w2 …`
    answer: tokens `T<type>:<start>-<end>`, `E@<start>:<rune>`, `EOF@<pos>` then `ok|timeout|panic`
 `lex.push | modes | <token state mode(-1=nil) stack…> | r`
-   answer: `<res> <token> <state> <mode> <stack…>` -/
+   answer: `<res> <token> <state> <mode> <stack…>`
+`lex.bisim rule ; rule ; … | <mode table ints>` where a rule is
+   `<k> <k ints: expected action pairs t p t p …> <regex in prefix code>`; regex prefix code:
+   `0` eps, `1 n lo1 hi1 … lon hin` class, `2 re re` seq, `3 re re` alt, `4 re` star, `5 re` non-greedy star
+   answer: `ok <pairs explored>` or `fail <reason>`
+`lex.wf <mode table ints>`   answer: `ok` or `fail <reason>` -/
 namespace Lox.Lex
 open Lox.Drv
 
@@ -26,8 +32,66 @@ def showRes : Res → String
   | .consume => "0" | .accept => "1" | .discard => "2" | .tryAgain => "3" | .eof => "4"
   | .error => "-1" | .oob => "panic"
 
+/-- Regex in prefix code; returns the rest of the input. -/
+def parseRe : Nat → List Int → Option (Re × List Int)
+  | 0, _ => none
+  | _ + 1, [] => none
+  | n + 1, code :: rest =>
+    if code = 0 then some (.eps, rest)
+    else if code = 1 then
+      match rest with
+      | [] => none
+      | k :: rest =>
+        let k := k.toNat
+        if rest.length < 2 * k then none
+        else
+          let rs := rest.take (2 * k)
+          some (.cls ((List.range k).map fun j => (rs.getD (2 * j) 0, rs.getD (2 * j + 1) 0)),
+                rest.drop (2 * k))
+    else if code = 2 ∨ code = 3 then
+      match parseRe n rest with
+      | none => none
+      | some (a, rest) =>
+        match parseRe n rest with
+        | none => none
+        | some (b, rest) => some (if code = 2 then .seq a b else .alt a b, rest)
+    else if code = 4 ∨ code = 5 then
+      match parseRe n rest with
+      | none => none
+      | some (a, rest) => some (.star (code = 5) a, rest)
+    else none
+
+def toActPairs : List Int → Option (List Pair)
+  | [] => some []
+  | t :: p :: rest => (toActPairs rest).map ((t, p) :: ·)
+  | _ => none
+
+def parseRule (xs : List Int) : Option (Re × List Pair) :=
+  match xs with
+  | [] => none
+  | k :: rest =>
+    if k < 0 ∨ rest.length < k.toNat then none
+    else do
+      let ps ← toActPairs (rest.take k.toNat)
+      match parseRe (rest.length + 1) (rest.drop k.toNat) with
+      | some (re, []) => some (re, ps)
+      | _ => none
+
 def handle (op payload : String) : Option String :=
   match op with
+  | "lex.bisim" => do
+    match payload.splitOn "|" with
+    | [rules, tbl] =>
+      let rules ← ((rules.splitOn ";").filter (fun s => !s.trimAscii.toString.isEmpty)).mapM
+        fun r => parseInts r >>= parseRule
+      let tbl ← parseInts tbl
+      match bisimN rules tbl.toArray with
+      | .ok n => some ("ok " ++ toString n)
+      | .error e => some ("fail " ++ e)
+    | _ => none
+  | "lex.wf" => do
+    let tbl ← parseInts payload
+    if wfTable tbl.toArray then some "ok" else some ("fail " ++ wfWhy tbl.toArray)
   | "lex.run" => do
     match payload.splitOn "|" with
     | [fuel, modes, inp] =>
